@@ -8,6 +8,7 @@ DEV-mode enumeration against mc/ref/jcs.py:
   structure: all values of depth <=3 with <=2 children per container over a leaf alphabet
 Clauses: equals reference; utf8=True is its UTF-8 encoding; parses back to the same value; fixpoint; order independence; NaN/inf refused.
 """
+import copy
 import itertools
 import json
 import math
@@ -359,8 +360,79 @@ def run_sequences(case, part):
                 part.outcome("sequence:same")
 
 
+def repair_menu():
+    """(name, build() -> (value, repair(value))) - a value refused part-way through, then REPAIRED IN PLACE by the caller (same container objects) and handed over again"""
+    def in_list_tail():
+        v = [1, [2, math.nan]]
+        return v, lambda: v[1].__setitem__(1, 3)
+    def in_member():
+        v = {"a": 1, "b": {"c": math.inf, "d": [1]}}
+        return v, lambda: v["b"].__setitem__("c", 0.5)
+    def deep():
+        v = {"a": [1, {"b": [True, -math.inf]}]}
+        return v, lambda: v["a"][1]["b"].__setitem__(1, None)
+    def unsupported():
+        v = {"a": ["x", _Unsupported()], "z": {}}
+        return v, lambda: v["a"].__setitem__(1, "y")
+    def big_int():
+        v = [{"n": [10 ** 400]}]
+        return v, lambda: v[0]["n"].__setitem__(0, 10)
+    def removed():
+        v = {"k": [math.nan, {"a": 1}]}
+        return v, lambda: v["k"].pop(0)
+    def shared_child():
+        child = {"c": [1, 2]}
+        v = {"a": child, "b": [child, math.nan]}
+        return v, lambda: v["b"].pop()
+    return [("nan-in-list-tail", in_list_tail), ("inf-in-member", in_member), ("-inf-deep", deep), ("unsupported-type", unsupported), ("integer-beyond-double-range", big_int),
+            ("offending-element-removed", removed), ("child-at-two-positions", shared_child)]
+
+
+def run_repairs(case, part):
+    """refused call -> the caller repairs the SAME containers in place -> every later call on them (and on their sub-containers, and on them nested in a new parent) answers as for a fresh value;
+    with 0, 1 or 2 unrelated calls (accepted / refused) in between"""
+    from stix2.canonicalization import Canonicalize as C
+    fns = [(fn, u) for fn in ("canonicalize", "serialize") for u in (False, True)]
+    def call(fn, u, v):
+        try:
+            return ("ok", getattr(C, fn)(v, utf8=u))
+        except Exception as e:
+            return (type(e).__name__, None)
+    between_menu = [[], [("good", lambda: {"b": 1, "a": [1.0]})], [("bad", lambda: [1, {"x": math.nan}])], [("bad", lambda: [1, {"x": math.nan}]), ("good", lambda: [[], {}])]]
+    for name, build in repair_menu():
+        if case.get("name") and name != case["name"]:
+            continue
+        for f1 in fns:
+            for bi, between in enumerate(between_menu):
+                for f2 in fns:
+                    v, repair = build()
+                    part.evaluations += 1
+                    part.transitions += 2 + len(between)
+                    part.state(("repair", name, f1, bi, f2), nontrivial=True)
+                    c = {"kind": "repairs", "name": name, "first": list(f1), "between": bi, "then": list(f2)}
+                    r1 = call(f1[0], f1[1], v)
+                    if r1[0] == "ok":
+                        part.violation("C16/nonfinite-accepted/in-repair-menu", "a value that cannot be canonicalized is accepted", c, "refused", repr(r1[1])[:200])
+                        continue
+                    for _, mk in between:
+                        call(f1[0], f1[1], mk())
+                    repair()
+                    for label, w in (("same-object", v), ("in-new-parent", [v]), ("fresh-deep-copy", copy.deepcopy(v))):
+                        want = J.jcs(w, sort=(f2[0] == "canonicalize"))
+                        want = want.encode("utf-8") if f2[1] else want
+                        got = call(f2[0], f2[1], w)
+                        if got != ("ok", want):
+                            part.outcome("repair:DIFFERS")
+                            part.violation("C16/history-dependent/repaired-value-after-refused-call/%s" % label, "a value repaired in place after a refused call is not canonicalized like a fresh one",
+                                           dict(c, which=label), repr(want)[:200], [got[0], repr(got[1])[:200]], None)
+                        else:
+                            part.outcome("repair:same")
+
+
 def run_case(case, part):
     k = case["kind"]
+    if k == "repairs":
+        return run_repairs(case, part)
     if k == "sequences":
         return run_sequences(case, part)
     if k == "prefixed-keys":
@@ -434,6 +506,8 @@ def run(run):
         cases.append({"kind": "sequences", "depth": 3 if th else 2, "first": n})
     for pre in PREFIXES:
         cases.append({"kind": "prefixed-keys", "prefix": pre})
+    for n, _ in repair_menu():
+        cases.append({"kind": "repairs", "name": n})
     run.mode = "DEV"
     run.rule = ("enumeration of doubles (every exponent x %d mantissa patterns x sign; +-2 ulp around every power of ten; all d.dd x 10^k), integer boundaries, "
                 "strings/keys over the code-point alphabet, every insertion order of <=4 keys out of 8, all JSON values of depth <=3 with <=2 children; "
